@@ -448,7 +448,7 @@ def gen_lapack_safety(table=None):
 def gen_safety(table, FOOT, pyname, ns, wrapmod, footfile, LIB, thmprefix, idxmod, suffix):
     out = ['/- GENERATED by tools/translate/cwrap2lean.py (gen_%s_safety): theorem statements from tools/translate/%s (hand-written' % (pyname, footfile),
            '   specification of what each %s routine touches) about the generated argument checks of Gen/%s.lean. -/' % (LIB, wrapmod),
-           'import CvxVerif.Gen.%s' % wrapmod, 'set_option linter.unusedVariables false', 'set_option maxRecDepth 8000',
+           'import CvxVerif.Gen.%s' % wrapmod, 'set_option linter.unusedVariables false', 'set_option linter.unusedSimpArgs false', 'set_option maxRecDepth 8000',
            'namespace CvxVerif.C19', 'open CvxVerif.CWrap CvxVerif.Gen CvxVerif.Gen.%s' % ns, '']
     unproved = []
     for r in table:
@@ -485,8 +485,8 @@ def gen_safety(table, FOOT, pyname, ns, wrapmod, footfile, LIB, thmprefix, idxmo
             else: out.append(l)
         out.append('')
     # one file per routine (parallel build) + an index module
-    header = out[:8]
-    body = out[8:]
+    header = out[:9]
+    body = out[9:]
     blocks, cur = [], []
     for l in body:
         cur.append(l)
@@ -531,6 +531,32 @@ def gen_driver(table, ns, wrapmod, drvmod, fn, cn, drvfile):
     out.append('end CvxVerif.Gen.%s\n' % ns)
     p = os.path.join(GEN, drvmod + '.lean'); txt = '\n'.join(out)
     if not os.path.exists(p) or open(p).read() != txt: open(p, 'w').write(txt)
+
+def gen_foot(table, FOOT, ns, wrapmod, footmod, fn):
+    """Gen/<footmod>.lean: the footprint specification of every routine as an executable Boolean (used by the search for a failing input when a
+    safety theorem no longer checks): kv / kb give the arguments of the call, gv the final values the checks pass on"""
+    def conv(stmt):
+        stmt = re.sub(r"\b([A-Za-z_]\w*)'", r'(gv "\1")', stmt)
+        stmt = re.sub(r'(?<!")\b(\w+_(?:len|id|nrows|ncols))\b(?!")', r'(kv "\1")', stmt)
+        stmt = re.sub(r'(?<!")\b(\w+_(?:isMat|given))\b(?!")', r'(kb "\1")', stmt)
+        return stmt
+    out = ['/- GENERATED by tools/translate/cwrap2lean.py (gen_foot): the footprint specifications as executable Booleans. Do not edit. -/',
+           'import CvxVerif.Gen.%s' % wrapmod, 'set_option linter.unusedVariables false', 'namespace CvxVerif.Gen.%s' % ns, 'open CvxVerif.CWrap', '',
+           'def %s (name : String) (kv : String → Int) (kb : String → Bool) (gv : String → Int) : Option Bool :=' % fn]
+    for r in table:
+        if r['name'] not in FOOT: continue
+        stmt = ' ∧ '.join('(%s)' % conv(f) for f in FOOT[r['name']])
+        out.append('  if name == "%s" then some (decide (%s)) else' % (r['name'], stmt))
+    out += ['  none', 'end CvxVerif.Gen.%s' % ns, '']
+    p = os.path.join(GEN, footmod + '.lean'); txt = '\n'.join(out)
+    if not os.path.exists(p) or open(p).read() != txt: open(p, 'w').write(txt)
+
+def gen_blas_foot(table):
+    import footprints
+    gen_foot(table, footprints.FOOT, 'Blas', 'BlasWrap', 'BlasFoot', 'footBlas')
+def gen_lapack_foot(table):
+    import footprints_lapack
+    gen_foot(table, footprints_lapack.FOOT, 'Lapack', 'LapackWrap', 'LapackFoot', 'footLapack')
 
 def gen_blas_driver(table): gen_driver(table, 'Blas', 'BlasWrap', 'BlasDriver', 'runBlas', 'callNames', 'C19')
 def gen_lapack_driver(table): gen_driver(table, 'Lapack', 'LapackWrap', 'LapackDriver', 'runLapack', 'callNamesL', 'C19L')
@@ -599,4 +625,5 @@ if __name__ == '__main__':
     gen_blas_driver(t)
     tl = gen_lapack_safety()
     gen_lapack_driver(tl)
+    gen_blas_foot(t); gen_lapack_foot(tl)
     print('generated', len(t), '+', len(tl), 'routines')
